@@ -8,6 +8,9 @@ HOOKS = {
     "T_HOO": lambda: monitors.tree_bandit_hooks("T_HOO"),
     "HCT": lambda: monitors.tree_bandit_hooks("HCT"),
     "VHCT": lambda: monitors.tree_bandit_hooks("VHCT"),
+    "SOO": lambda: monitors.sweep_hooks("SOO"),
+    "DOO": lambda: monitors.sweep_hooks("DOO"),
+    "StoSOO": lambda: monitors.sweep_hooks("StoSOO"),
 }
 
 
